@@ -6,3 +6,5 @@ def check(rep, tier):
     from contracts import rules_exact, core_outgrads
     rep.run(core_outgrads.run, rep, tier)
     rep.run(rules_exact.run, rep, tier, rules_exact.CLAUSE_PROPS["C11"], which="index")
+    from contracts import rules_numeric
+    rep.run(rules_numeric.run_accum, rep)
